@@ -126,6 +126,12 @@ thread_local! {
     static PRNG: Cell<u64> = const { Cell::new(0) };
 }
 
+/// sequential mode: the only thread that runs crate code is declared stuck after this many consecutive loads
+pub const SEQ_STUCK_LOADS: u64 = 20_000;
+pub static SEQ_GUARD: AtomicBool = AtomicBool::new(false);
+pub static SEQ_STUCK: AtomicBool = AtomicBool::new(false);
+thread_local! { static SEQ_LOADS: Cell<u64> = const { Cell::new(0) }; }
+
 /// free-running perturbation intensity (0 = off): at crate atomic steps a thread spins / yields at random
 pub static PERTURB: AtomicU32 = AtomicU32::new(0);
 /// clock used for call/return stamps
@@ -235,6 +241,20 @@ mod hooks {
     fn pre(addr: usize, kind: OpKind, _ord: vh::Ordering) {
         let tid = TID.with(|t| t.get());
         if tid == NOBODY {
+            if SEQ_GUARD.load(Ordering::Relaxed) {
+                // exactly one thread runs crate code (sequential mode): if it only loads, nothing can
+                // ever change what it reads
+                let n = SEQ_LOADS.with(|c| {
+                    let v = if kind == OpKind::Load { c.get() + 1 } else { 0 };
+                    c.set(v);
+                    v
+                });
+                if n > SEQ_STUCK_LOADS && !std::thread::panicking() {
+                    SEQ_LOADS.with(|c| c.set(0));
+                    SEQ_STUCK.store(true, Ordering::Relaxed);
+                    std::panic::resume_unwind(Box::new(Teardown));
+                }
+            }
             perturb();
             return;
         }
@@ -267,9 +287,24 @@ mod hooks {
                 return;
             }
             let inner = unsafe { &mut *self.inner.get() };
-            if ev.kind == OpKind::CasFail {
-                // a failed CAS is a load: undo the "progress" that `pre` assumed
-                inner.consec_loads[tid] = inner.consec_loads[tid].saturating_add(1);
+            match ev.kind {
+                OpKind::Load => {}
+                OpKind::CasFail => {
+                    // a failed compare-exchange changes nothing: it counts as a load
+                    inner.consec_loads[tid] = inner.consec_loads[tid].saturating_add(1);
+                    inner.in_window[tid] = inner.in_window[tid].saturating_add(1);
+                    inner.loads_since_progress += 1;
+                    if inner.consec_loads[tid] == SPIN_S {
+                        inner.spins_observed += 1;
+                    }
+                    inner.last_addr[tid] = ev.addr;
+                }
+                OpKind::Store | OpKind::Rmw | OpKind::Fence => {
+                    // a store / RMW that leaves the value unchanged cannot release a waiting thread either,
+                    // but it is rare enough to be treated as progress
+                    inner.consec_loads[tid] = 0;
+                    inner.note_progress();
+                }
             }
             let acq = matches!(ev.ordering, vh::Ordering::Acquire | vh::Ordering::AcqRel | vh::Ordering::SeqCst);
             let rel = matches!(ev.ordering, vh::Ordering::Release | vh::Ordering::AcqRel | vh::Ordering::SeqCst);
@@ -515,10 +550,10 @@ impl Sched {
                 inner.last_addr[tid] = addr;
             }
             PointKind::HookWrite => {
+                // whether this is progress is known only afterwards (a failed compare-exchange is a load):
+                // accounted for in `on_event`
                 inner.hook_events += 1;
                 inner.hook_in_op[tid] += 1;
-                inner.consec_loads[tid] = 0;
-                inner.note_progress();
             }
             PointKind::OpStart => {
                 inner.hook_in_op[tid] = 0;
